@@ -1309,6 +1309,17 @@ class Repository:
             finally:
                 await chunk_producer
 
+        # Files are recorded by the chunks that cover them, so files in a stream
+        # that produced no chunks at all (nothing but empty files) are still missing
+        for _, file in state.files:
+            if file.path not in snapshot_files:
+                snapshot_files[file.path] = {
+                    'path': file.path,
+                    'chunks': [],
+                    'digest': file.digest,
+                    'metadata': file.metadata,
+                }
+
         now = datetime.utcnow()
         snapshot_data = {
             'utc_timestamp': str(now),
@@ -1536,6 +1547,13 @@ class Repository:
                     chunk_position += chunk_size
 
                 total_bytes += chunk_position
+
+                if not ordered_chunks:
+                    # No chunk will ever complete this (empty) file
+                    restore_to.parent.mkdir(parents=True, exist_ok=True)
+                    restore_to.write_bytes(b'')
+                    self.restore_metadata(restore_to, file_data['metadata'])
+                    del files_metadata[file_path]
 
         bytes_tracker = tqdm(
             desc='Data processed',
